@@ -2,7 +2,11 @@
 
 package client
 
-import "time"
+import (
+	"time"
+
+	"github.com/simpleiot/simpleiot/data"
+)
 
 // Verification hooks (build tag "verif" only): thin exported wrappers around
 // unexported functions so that an external harness can drive them. No logic here.
@@ -20,4 +24,15 @@ func VerifCobsDecodeInplace(b []byte) ([]byte, error) {
 		return nil, err
 	}
 	return c[:n], nil
+}
+
+// VerifRuleFeed hands a batch of points to a running rule client exactly as the callback of its
+// up.<parent>.* subscription does; it returns when the client's Run loop has taken the batch.
+func VerifRuleFeed(c Client, nodeID string, pts data.Points) {
+	c.(*RuleClient).newRulePoints <- NewPoints{nodeID, "", pts}
+}
+
+// VerifRuleConfig returns the rule client's current configuration (call after Run has returned).
+func VerifRuleConfig(c Client) Rule {
+	return c.(*RuleClient).config
 }
